@@ -4,7 +4,7 @@ PROPS["C08"] = P(
     "(BitFieldVec<u8|u16|u32|u64|usize> with a requested width b, Box<[u8|u16|u32|u64]>; FuseLge3Shards, FuseLge3NoShards with 128/64-bit signatures, FuseLge3FullSigs) and a random builder configuration "
     "(hint absent/exact/n/10/0/n+1/2n/8n/800000, threads, offline, low_mem, seed, log2_buckets, eps, check_dups). Exact checks after every Ok: len() = n, hash_bits() = b (W::BITS for slices), and for EVERY inserted key "
     "contains(k), filter[k] and (when b satisfies its documented precondition) contains_unaligned(k) are true. Rate check (only for n >= 1000): N probe keys disjoint from the members by construction (indices >= n of the same injective family), "
-    "N = 10^6 for b <= 12 and b > 16, 4*10^6 for 13 <= b <= 16; with p = 2^-b the count of positives must satisfy |fp - Np| <= 6 sqrt(Np(1-p)) + 3, for b > 16 only the upper side; contains_unaligned must agree with contains on a sample of the probes. "
+    "N = 10^6 for b <= 12 and b > 16, 4*10^6 for 13 <= b <= 16; with p = 2^-b the count of positives must satisfy |fp - Np| <= 6 sqrt(Np(1-p)) + 3, for b > 16 only the upper side; a count outside the band is re-measured on a second disjoint set of N probes and reported only if that is outside on the same side as well; contains_unaligned must agree with contains on a sample of the probes. "
     "Strata: b in {1,2,3,7,8,9,15,16,31,32,63,64} (thorough: every b in 1..=W::BITS) x n in {1000, 10^5} (debug build: {1000, 10^4}; thorough: + 10^6) for the bit-field variants, W::BITS for the slice variants; "
     "members-only cases at n in {0,1,2,3,10,99,100,101,300} x width classes and at the builder's regime edges 10^4..200000 (thorough: to 800001); random rounds on top. "
     "Err on distinct keys, a panic or exceeding the attempt bound of C07 (20000 rewinds for n <= 5000, 200 above) are violations. "
